@@ -141,7 +141,10 @@ def parseParty (st : St) (s : String) : Option Party :=
   else none
 
 def step (st : St) (line : String) : St × String :=
-  match words line with
+  let w := words line
+  -- like the harness: before the first `np` of a case only `np` and `simp` are meaningful
+  if st.np.isNone && w.head? != some "np" && w.head? != some "simp" then (st, "bad-op") else
+  match w with
   | ["np", ns, sel, types, ing, eg] =>
     match parseSel sel, parseRules ing, parseRules eg with
     | some (some sel), some ing, some eg =>
